@@ -5,7 +5,9 @@ Import ListNotations.
 From V Require Import Model.Val Model.SvgTypes Model.SvgDraw Model.SvgInst Gen.SvgTables Proofs.SvgDrawP.
 Open Scope N_scope.
 
-Lemma all_closed_true : all_closed = true.
+(* stated on the unfolded form: the kernel must never be asked to convert the closed term
+   [all_closed] other than by the VM *)
+Lemma all_closed_true : forallb closed_dc diagram_classes = true.
 Proof. vm_cast_no_check (eq_refl true). Qed.
 
 Lemma packed_mk kc sh ov : packed_class (mk_obj kc sh ov) = packed_class (mk_obj kc (false, O, O) []).
@@ -43,7 +45,8 @@ Proof.
   pose proof (refs_closed_all_lemma dc kc sh ov Hdc Hkc Hsh Hov) as H. unfold closed1 in H. rewrite Hd in H. discriminate.
 Qed.
 
-Lemma symbols_ok_true : symbols_ok TBL = true.
+Definition symbol_ok (r : symbol_row) : bool := row_local_closed TBL r && row_id_ok r.
+Lemma symbols_ok_true : forallb symbol_ok SYMBOLS = true.
 Proof. vm_cast_no_check (eq_refl true). Qed.
 
 (* every registered symbol: its id is its registry key, and every reference inside it is to an id
@@ -52,9 +55,8 @@ Theorem symbol_registry_closed_lemma : forall r, In r SYMBOLS ->
   sy_id r = sy_key r /\ In (sy_key r) (sy_ids r) /\
   incl (sy_refs r) (sy_ids r ++ flat_map (row_ids TBL) (sy_deps r)).
 Proof.
-  intros r Hr. pose proof symbols_ok_true as H. unfold symbols_ok in H.
-  rewrite forallb_forall in H. specialize (H r Hr).
-  apply andb_true_iff in H as [H1 H2]. unfold row_id_ok in H2. apply andb_true_iff in H2 as [H2 H3].
+  intros r Hr. pose proof (proj1 (forallb_forall symbol_ok SYMBOLS) symbols_ok_true r Hr) as H.
+  unfold symbol_ok in H. apply andb_true_iff in H as [H1 H2]. unfold row_id_ok in H2. apply andb_true_iff in H2 as [H2 H3].
   repeat split.
   - now apply seqb_eq.
   - now apply mem_str_In.
